@@ -506,7 +506,9 @@ impl<S: 'static> Timers<S> {
                                 .unwrap();
                             vt.curr = rounded_75point(
                                 self.now.inc(),
-                                expiry.min(self.now.add_secs(0x7FFF)),
+                                expiry
+                                    .max(self.now.inc())
+                                    .min(self.now.add_secs(0x7FFF)),
                             );
                             self.queue.insert(TimerKey::new(vt.curr.wt(), mk.slot), bfn);
                         }
